@@ -249,6 +249,12 @@ def load_known():
 def check_C18(tier, seed):
     res = Result(ID, tier, seed)
     proof = prepare(ID, res, model_tags=("C18",))
+    if tier == "thorough" and proof.get("ok"):
+        with core.Lock():
+            ok, out = core.coqchk(ID)
+        res.coverage["coqchk"] = "ok" if ok else out[-400:]
+        if not ok:
+            res.add_tie_break("coqchk rejects the compiled proofs", error=out[-1200:])
     rng = gen.rng_for(seed, ID)
     texts, tdist = gen_texts(tier, rng)
     blobs, bdist = gen_bytes(tier, rng, texts)
